@@ -274,3 +274,39 @@ def unpicklable_probe(v, tier, seed, name="python_unpicklable_state"):
     v.coverage.setdefault(name, {}).update({"programs": ncmp, "violations": nviol,
         "rule": "systems of Python processes holding an unpicklable attribute: the first run must end with the process error, never with result=ok"})
     return nviol
+
+
+def negative_delay_probe(v, tier, seed, name="python_negative_delay"):
+    """C18 "surfaces its exceptions as handler errors": Context.set_timer / set_timer_once with a negative delay raise ValueError
+    (python/anysystem.py); a Python process that asks for such a timer (vscript.ScriptProcNegative) must fail its handler — in the
+    simulator the call that ran the handler ends with the process error, it does not go on as if a timer had been cancelled."""
+    from . import sim_suite
+    from .common import run_blocks, VH, STALL_S
+    rng = random.Random(seed * 1229 + 3)
+    n = 16 if tier == "quick" else 200
+    scen = []
+    for i in range(n):
+        kind = rng.choice(["T", "O"])
+        first = rng.choice(["", "T:t0:4 "])         # sometimes a timer of that name is already armed (by a regular action of an earlier rule)
+        lines = ["seed 1", f"draws {sim_suite.draws_for(1)}", "node n0",
+                 "rule p1 0 L:m0 1 T:t0:6", f"rule p0 0 L:m0 1 {kind}:t0:{rng.randint(0, 3)}", "rule p0 1 T:t0 2 L:m1:=\"f\"",
+                 "proc p0 n0 pyn", "proc p1 n0 py", "local p1 m0 =\"a\"", "local p0 m0 =\"a\"", "steps 4", "obs"]
+        scen.append((f"ng{i}", lines))
+    o, _, _ = run_blocks([VH, "sim"], [sim_suite.block(nm, l) for nm, l in scen], STALL_S)
+    nviol = ncmp = 0
+    for nm, lines in scen:
+        a = [l for l in o.get(nm, []) if not l.startswith("PANIC ")]
+        rets = [l for l in a if l.startswith("ret=")]
+        if len(rets) < 5:
+            continue
+        ncmp += 1
+        # rets: node, proc p0, proc p1, local p1, local p0, …
+        if not rets[4].startswith("ret=panic"):
+            nviol += 1
+            if nviol <= 3:
+                v.violation(f"{name}-{nm}.txt", f"# property {v.pid}: a Python handler asked for a timer with a negative delay; the documented ValueError "
+                            f"was not surfaced as an error of the process (the call returned `{rets[4][:80]}`)\n"
+                            f"# replay: /verif/check {v.pid} --replay <this file>\n" + "".join(l + "\n" for l in lines if not l.startswith("draws")))
+    v.coverage.setdefault(name, {}).update({"programs": ncmp, "violations": nviol,
+        "rule": "Python processes asking for timers with negative delays: the handler call must end with the process error"})
+    return nviol
